@@ -320,6 +320,7 @@ func (e *Encoder) atomicCall(n string, callee *ssa.Function, cm *ssa.CallCommon,
 		return Val{T: resT, S: s}
 	}
 	e.atomicEvent(callee.Name(), cm, loc, ft, args, st, pc)
+	e.auditAtomicOp(callee.Name(), cm, ft, loc, args, st, pc)
 	switch callee.Name() {
 	case "Load":
 		v := e.load(st, loc, ft)
